@@ -73,7 +73,19 @@ UNITS['tag_assemble_dim'] = dict(file=DA, locator=r'void\s+getOffsetAndCount\s*\
     region=dict(start=r'vector<optional<pair<ndsize_t,\s*ndsize_t>>>\s+ranges\s*=\s*positionToIndex\(', end=r'temp_count\[i\]\s*\+=\s*c;\s*\}',
                 params=[('NDSize &', 'temp_offset'), ('NDSize &', 'temp_count'), ('size_t', 'i'), ('double', 'position_i'), ('double', 'extent_i'),
                         ('const std::string &', 'unit_i'), ('RangeMatch', 'match'), ('const Dimension &', 'dimension_i')]))
-EXTRA = ('opt_ndsize gh_ge; opt_pair gh_pair; double gh_pair_start, gh_pair_end; RangeMatch gh_pair_match; int gh_pair_calls;\n'
+def string_literal_local(ctx, toks):
+    """std::string NAME("literal");  (a message text handed to a may-throw helper)  ->  const char *NAME = "literal";"""
+    out = []; i = 0
+    while i < len(toks):
+        if toks[i].t in ('string', 'nstring') and i + 5 < len(toks) and toks[i + 1].k == 'id' and toks[i + 2].t == '(' and toks[i + 3].k == 'str' and toks[i + 4].t == ')' and toks[i + 5].t == ';':
+            j = len(out)
+            while j and out[j - 1].t in ('std', '::'): j -= 1
+            del out[j:]
+            out.extend(tokenize('%sconst char *%s = %s' % (toks[i].ws, toks[i + 1].t, toks[i + 3].t))); i += 5; fire(ctx, 'string-literal-local'); continue
+        out.append(toks[i]); i += 1
+    return out
+UNITS['getMaxExtent'] = dict(file=DA, pre_rules=[string_literal_local], locator=r'void\s+getMaxExtent\s*\(', classes=CL + ['SampledDimension', 'RangeDimension'])
+EXTRA = ('opt_ndsize gh_ge; opt_pair gh_pair; double gh_pair_start, gh_pair_end; RangeMatch gh_pair_match; int gh_pair_calls; int gh_unspecified;\n'
          'int gh_views; size_t gh_view_count_rank, gh_view_offset_rank; ndsize_t gh_view_count_k, gh_view_offset_k; const ndsize_t *gh_view_extent_dims;\n'
          'int gh_tagged_calls, gh_backend_feature_gets, gh_backend_reference_gets; ndsize_t gh_backend_get_index;\n'
          )
@@ -85,6 +97,7 @@ JOBS = [job('Tag_getFeature', ['Tag_backend_getFeature']), job('Tag_getReference
         job('featureData_tag_index', ['Tag_getFeature', 'featureData_tag'])]
 JOBS.append(dict(name='tag_assemble_dim', bodies=['NDSize_size', 'NDSize_at', 'tag_assemble_dim'], enforce=['tag_assemble_dim'], replace=['positionToIndex_scalar'], extra_c=EXTRA,
                  defines=['ND_FULL_ALLOC'], cbmc_flags=UNW, expect_kinds=['postcondition', 'precondition'], timeout=900))
+JOBS.append(dict(name='getMaxExtent', bodies=['getMaxExtent'], enforce=['getMaxExtent'], replace=[], extra_c=EXTRA, cbmc_flags=UNW, expect_kinds=['postcondition'], timeout=300))
 for j in rank_cases(job('featureData_tag', ['taggedData_tag', 'mk_DataView_3'], split=True, split_workers=3)):
     r = int(j['name'].split('rank=')[1].rstrip(']'))
     j['tiers'] = ('quick', 'thorough') if r <= 3 else ('thorough',)
